@@ -99,6 +99,10 @@ def run(ctx):
             tty = rnd.random() < 0.12
             out = ("o%d.bin" % i) if rnd.random() < 0.35 else None
             invs.append(dict(factory=fac, drawer=drw, level=lvl, optimize=opt, data=data, as_arg=as_arg, ascii=ascii_flag, tty=tty, output=out))
+        # long piped input that still fits a symbol (digits / alphanumerics beyond 4 096 characters)
+        for data, lvl in ((gens.payload(rnd, "digits", 4097), "L"), (gens.payload(rnd, "digits", 5500), "M"), (gens.payload(rnd, "alpha-nodigit", 4250), "L"),
+                          (gens.payload(rnd, "bytes", 2953), "L")):
+            invs.append(dict(factory=rnd.choice([None, "png"]), drawer=None, level=lvl, optimize=None, data=data, as_arg=False, ascii=False, tty=False, output=None))
         # sink-independence pairs: same options once to stdout, once to --output
         pairs = []
         for i in range(40 if tier == "thorough" else 12):
